@@ -73,6 +73,11 @@ Definition package_of (name : str) : package :=
 Definition db_iter (listing : list dirent) : list (option package) :=
   map (fun d => if utf8_valid (de_name d) then Some (package_of (de_name d)) else None) (filter valid_pkgdir listing).
 
+(* Package::read_metadata: the whole file as text (fs::read_to_string) - its bytes,
+   whatever their number, when they are valid UTF-8; an error otherwise *)
+Definition pkg_read_file (content : str) : option str :=
+  if utf8_valid content then Some content else None.
+
 (* PkgDB::open: a directory is a file-based database; a regular file is taken
    to be a database file (not supported yet: iterating it yields nothing);
    anything else is an error *)
